@@ -22,7 +22,11 @@ def fp_value(v, depth=0):
 
     if depth > 200:
         return ('deep',)
-    if v is None or isinstance(v, (bool, int, str, float, bytes)):
+    if isinstance(v, bool):
+        # True == 1: a key passed with flags=True is *equal* to one passed with flags=1 and may legitimately be
+        # served the same cached object, so the fingerprint must not tell them apart
+        return ('int', int(v))
+    if v is None or isinstance(v, (int, str, float, bytes)):
         return (type(v).__name__, v)
     if isinstance(v, _PATTERN):
         return ('re', v.pattern, v.flags)
